@@ -3,6 +3,7 @@ package toy
 import (
 	"errors"
 	"io"
+	"sync"
 )
 
 var errBad = errors.New("bad")
@@ -242,4 +243,70 @@ func callPtrOK(n *node) {
 func callPtrBad(n *node) {
 	ptrOK(&n.val)
 	ptrOK(&n.val)
+}
+
+// ---- engine features added in session 2: re-acquisition, recv anchors, spawn preconditions, channel capacity,
+// map-update anchors, parameters inside old().
+
+type reg struct {
+	mu sync.Mutex
+	m  map[string]int
+}
+
+func (r *reg) putOnceOK(k string, v int) bool {
+	r.mu.Lock()
+	defer r.mu.Unlock()
+	if _, dup := r.m[k]; dup {
+		return false
+	}
+	r.m[k] = v
+	return true
+}
+
+func (r *reg) putOnceBad(k string, v int) bool {
+	r.mu.Lock()
+	_, dup := r.m[k]
+	r.mu.Unlock()
+	if dup {
+		return false
+	}
+	r.mu.Lock()
+	defer r.mu.Unlock()
+	r.m[k] = v
+	return true
+}
+
+func joinOK() {
+	done := make(chan bool, 2)
+	go worker(done)
+	go worker(done)
+	<-done
+	<-done
+}
+
+func joinBad() {
+	done := make(chan bool, 2)
+	go worker(done)
+	go worker(done)
+	<-done
+}
+
+func worker(done chan<- bool) { done <- true }
+
+func spawnOK() {
+	errc := make(chan error, 1)
+	go func() { errc <- nil }()
+}
+
+func spawnBad() {
+	errc := make(chan error)
+	go func() { errc <- nil }()
+}
+
+func dropOK(b []byte, n int) int {
+	total := len(b)
+	for len(b) > n {
+		b = b[n:]
+	}
+	return total - len(b)
 }
